@@ -91,6 +91,49 @@ def rename_params(j, notes):
                     notes['renamed'].append(['%s(%s)' % (b['path'], d['name']), '%s(%s)' % (b['path'], w)])
                     d['name'] = w
 
+def _param_permutation(new_tys, new_names, old_tys, old_names):
+    """perm[i_new] = i_old (0-based): by type where the type is unique, by name among parameters of the same type; None when
+    that does not determine the mapping"""
+    perm = []; used = set()
+    for i, t in enumerate(new_tys):
+        c = [k for k, ot in enumerate(old_tys) if ot == t and k not in used]
+        if len(c) > 1:
+            nm = new_names[i] if i < len(new_names) else None
+            c2 = [k for k in c if k < len(old_names) and old_names[k] == nm and nm is not None]
+            if len(c2) != 1:
+                return None
+            c = c2
+        if len(c) != 1:
+            return None
+        perm.append(c[0]); used.add(c[0])
+    return perm
+
+def permute_params(j, path, perm):
+    """give the parameters of body `path` the reviewed order back (perm[i_new] = i_old), in the body and at every call"""
+    n = len(perm)
+    def lm(l):
+        return 1 + perm[l - 1] if 1 <= l <= n else l
+    for b in j['bodies']:
+        if b['path'] == path:
+            locs = list(b['locals'])
+            for i_new in range(n):
+                b['locals'][1 + perm[i_new]] = locs[1 + i_new]
+            for d in b.get('debug', []):
+                d['place'] = _map_place(d['place'], lm)
+                if d.get('arg') is not None and isinstance(d['arg'], int) and 1 <= d['arg'] <= n:
+                    d['arg'] = lm(d['arg'])
+            for blk in b['blocks']:
+                for st in blk['stmts']:
+                    st['lhs'] = _map_place(st['lhs'], lm)
+                    st['rv'] = _map_rv(st['rv'], lm)
+                blk['term'] = _map_term(blk['term'], lm, 0, None) if blk['term']['k'] != 'return' else blk['term']
+        for blk in b['blocks']:
+            t = blk['term']
+            if t['k'] == 'call' and path in callee_paths(t) and len(t['args']) == n:
+                a = list(t['args'])
+                for i_new in range(n):
+                    t['args'][perm[i_new]] = a[i_new]
+
 def rename_function(j, new, old):
     for b in j['bodies']:
         if b['path'] == new or b['path'].startswith(new + '::{closure'):
@@ -383,7 +426,27 @@ def normalise(j, cfg_features):
             taken.add(pick[0])
             notes['renamed'].append([pick[0], m])
         else:
-            notes['missing_reviewed'].append(m)
+            # free function <-> method: the same parameters in another ORDER (`f(res, cur, new)` -> `cur.f(res, new)`)
+            perm = None
+            if not cands:
+                pc = []
+                for n in new:
+                    if n in taken: continue
+                    sg = norm_sig(signature(fns[n]))
+                    for v in rec.get('variants', []) or [[rec['sig'], rec.get('params')]]:
+                        if sg[0] == v[0][0] and sorted(sg[1:]) == sorted(v[0][1:]) and sg != v[0]:
+                            pm = _param_permutation(sg[1:], param_names(fns[n]), v[0][1:], v[1] or [])
+                            if pm is not None:
+                                pc.append((n, pm))
+                if len(pc) == 1:
+                    perm = pc[0]
+            if perm is not None:
+                rename_function(j, perm[0], m)
+                permute_params(j, m, perm[1])
+                taken.add(perm[0])
+                notes['renamed'].append(['%s (parameters reordered %s)' % (perm[0], perm[1]), m])
+            else:
+                notes['missing_reviewed'].append(m)
     rename_params(j, notes)
     by = {b['path']: b for b in j['bodies']}
     fns = {p: b for p, b in by.items() if b['kind'] != 'closure'}
